@@ -5,7 +5,7 @@
 (*         4-byte sequences every lead byte x second byte over the boundary values (Full = TRUE: all       *)
 (*         second and third bytes) x continuation samples.                                                 *)
 EXTENDS LocalPart, Json, TLC
-CONSTANTS Part, Full, OptBits
+CONSTANTS Part, Full, OptBits, EmitCli
 VARIABLES s, k
 
 O == [rfc20 |-> (OptBits % 2) = 1, f5322 |-> ((OptBits \div 2) % 2) = 1, us |-> ((OptBits \div 4) % 2) = 1]
@@ -44,5 +44,10 @@ Vec == <<1, OptBits, Len(s)>> \o s \o <<IF C12Applies THEN 1 ELSE 0>> \o
        Concat([j \in 1..4 |-> <<LocalExp(O, ModeSeq[j], s), LocalRc(O, ModeSeq[j], s)>>])
 \* the decoder machine agrees with Unicode table 3-7 on every candidate
 DecoderOk == MWellFormed(s) = WellFormed(s)
-Inv == k = 1 => ((\A m \in Modes : LocalConforms(O, m, s)) /\ DecoderOk /\ PrintT(ToJson(Vec)))
+\* EmitCli: the candidate as a line  s@x.com  of a file for the eav tool (see MC_LocalW)
+CL == INSTANCE Cli
+CliLine == s \o <<AT, 120, DOT, 99, 111, 109>>
+CliSafe == ~Has(s, LF) /\ ~Has(s, 0) /\ ~CL!Commented(CliLine \o <<LF>>) /\ CL!Address(CliLine \o <<LF>>) = CliLine
+EmitLine == (EmitCli /\ CliSafe) => PrintT(ToJson(<<25, Len(CliLine)>> \o CliLine))
+Inv == k = 1 => ((\A m \in Modes : LocalConforms(O, m, s)) /\ DecoderOk /\ PrintT(ToJson(Vec)) /\ EmitLine)
 =============================================================================
